@@ -1,5 +1,6 @@
 SPECIFICATION Spec
 CONSTANTS
+  PairMode = "std"
   Universe <- UniverseThorough
   FormatsUsed <- AllFormats
   Origin = "writer"
